@@ -362,8 +362,12 @@ def u_check_flows(W, sk):
         for fl, a, b in S.flow_list:
             if isinstance(fl.values, symnp.SymArr) and fl.values.ndim > 0:
                 anyterm[fl.name] = symnp.sym_any(fl.values < -tol)
+    exc0 = list(exc)
+    flows0, procs0 = list(mfa.flows.keys()), list(mfa.processes.keys())
     out = W.call(lambda: mfa.check_flows(exceptions=exc, raise_error=False), stubs=stubs)
     W.prove("check_flows.returns", out.kind == "return", detail=repr(out))
+    W.prove("check_flows.exceptions_list_unchanged", exc == exc0, kind="frame", detail=str(exc))
+    W.prove("check_flows.system_tables_unchanged", list(mfa.flows.keys()) == flows0 and list(mfa.processes.keys()) == procs0, kind="frame")
     for fl, a, b in S.flow_list:
         excepted = fl.name in exc or a in exc or b in exc
         flagged = any(fl.name in str(m) and "Negative" in str(m) for m in msgs)
